@@ -23,6 +23,9 @@ def gen_style_spec(rng: random.Random) -> str:
 def gen_widgets(rng: random.Random, term: str):
     n = rng.choice([1, 2, 2, 3, 4])
     mixed = rng.random() < 0.5
+    # several widgets created with one and the same non-empty format spec string (an image grid)
+    shared = (rng.choice(["", "<", ".^", "|.-"]) + rng.choice(["+L", "+L", "+Lz3", "+m1", "+c3", "+z-2", "+Lm0c5"])
+              if rng.random() < 0.35 else None)
     ws = []
     for _ in range(n):
         style = rng.choice({"konsole": ["kitty", "kitty", "iterm2", "iterm2", "block"],
@@ -35,7 +38,8 @@ def gen_widgets(rng: random.Random, term: str):
             "ih": rng.choice([4, 8, 16, 40, rng.randrange(4, 60)]),
             "upscale": rng.random() < 0.6,
             "cls": rng.choice([0, 0, 1, 2]) if mixed else 0,  # UrwidImage / application-defined subclasses
-            "fmt": (rng.choice(["", "", "<", ">", ".^", "._", "<.^", ">._", "|.-"]) if rng.random() < 0.4 else "")
+            "fmt": shared if shared is not None and style == "kitty" else
+            (rng.choice(["", "", "<", ">", ".^", "._", "<.^", ">._", "|.-"]) if rng.random() < 0.4 else "")
             + (gen_style_spec(rng) if style == "kitty" and rng.random() < 0.35 else ""),
             "color": [rng.randrange(256) for _ in range(3)],
         })
@@ -192,6 +196,22 @@ def mutate(rng, layout, nw, W, H):
     return gen_box(rng, nw, W, H)
 
 
+def gen_leftover(rng, W, H):
+    """kitty placements another program left on the terminal"""
+    return [[1, rng.randrange(H), rng.randrange(max(1, W // 2)), rng.randrange(1, W // 2 + 1), 1,
+             rng.choice([0, 1, -1, 5, rng.randrange(-99, 99)])] for _ in range(rng.randrange(1, 5))]
+
+
+def start_seq(rng):
+    """`start()` with the keyword urwid's raw display documents: `alternate_buffer` True / False / not given.
+    Without the alternate buffer urwid draws in its partial-display mode, which these histories do not
+    exercise: the screen is stopped and started again before anything is drawn."""
+    alt = rng.choice([None, True, False, False])
+    if alt is False:
+        return [{"op": "start", "alt": False}, {"op": "stop"}, rng.choice([{"op": "start"}, {"op": "start", "alt": True}])]
+    return [{"op": "start"} if alt is None else {"op": "start", "alt": True}]
+
+
 def gen_script(rng: random.Random, tier: str = "quick"):
     term = rng.choice(["kitty", "kitty", "konsole", "konsole", "other", "forced"])
     # "forced": a terminal that is neither kitty nor konsole but speaks the kitty protocol
@@ -208,9 +228,13 @@ def gen_script(rng: random.Random, tier: str = "quick"):
         # a fresh process: support not probed yet, no image widget yet, an earlier program's images still on
         # the terminal; the screen is started / cleared first
         sc["fresh_support"] = True
-        sc["leftover"] = [[1, rng.randrange(H), rng.randrange(W // 2), rng.randrange(1, W // 2 + 1), 1,
-                           rng.choice([0, 1, -1, 5, rng.randrange(-99, 99)])] for _ in range(rng.randrange(1, 5))]
-        sc["steps"] += [{"op": o} for o in rng.choice([["start"], ["clear"], ["stop", "start"], ["clear", "stop", "start"]])]
+        sc["leftover"] = gen_leftover(rng, W, H)
+        sc["steps"] += rng.choice([start_seq(rng), [{"op": "clear"}], [{"op": "stop"}] + start_seq(rng),
+                                   [{"op": "clear"}, {"op": "stop"}] + start_seq(rng)])
+    elif term != "other" and rng.random() < 0.15:
+        # the screen is started (with or without the alternate buffer) on a terminal holding another program's images
+        sc["leftover"] = gen_leftover(rng, W, H)
+        sc["steps"] += start_seq(rng)
     layout = (gen_caption_columns(rng, nw, W, H) if term != "other" and rng.random() < 0.25
               else gen_box(rng, nw, W, H))
     if H >= 4 and rng.random() < 0.4:
@@ -235,7 +259,9 @@ def gen_script(rng: random.Random, tier: str = "quick"):
                 sc["steps"].append({"op": "draw", "same": True})
         elif i and r < 0.14:
             sc["steps"].append({"op": "stop"})
-            sc["steps"].append({"op": "start"})
+            if term != "other" and rng.random() < 0.6:
+                sc["steps"].append({"op": "leftover", "pl": gen_leftover(rng, W, H)})
+            sc["steps"] += start_seq(rng)
         elif i and r < 0.17:
             sc["steps"].append({"op": "draw", "same": True})
         elif i == n - 1 and r < 0.25:
